@@ -317,6 +317,15 @@ def program(draw, profile=None):
                     # the same original listed by a second frame of the owner (ownership guard must arbitrate)
                     g = draw(st.sampled_from([x for x in fr["frames"] if x is not f]))
                     g["acts"].insert(draw(st.integers(0, len(g["acts"]))), {"kind": "aux", "name": aname, "needs": []})
+                if prof.get("aux_nest") and info["mode"] == "plain" and draw(st.integers(0, 2)) == 0:
+                    # the same original also listed by a frame of an EARLIER auxiliary framer (no cycles): it can then be
+                    # reached through two nesting levels of one outline
+                    hosts = [x for x in framers if x["sched"] == "aux" and int(x["name"][1:]) < int(aname[1:])]
+                    if hosts:
+                        h = draw(st.sampled_from(hosts))
+                        g = draw(st.sampled_from(h["frames"][:2]))
+                        if not any(a["kind"] == "aux" and a["name"] == aname for a in g["acts"]):
+                            g["acts"].insert(draw(st.integers(0, len(g["acts"]))), {"kind": "aux", "name": aname, "needs": []})
     if prof.get("aux_completes"):
         # make auxiliaries walk through their frames and complete after a few ticks
         for fr in framers:
